@@ -33,11 +33,12 @@ var Def = driver.PropDef{
 		"R2 wire grammar: the read term extracted from the code of every opcode case, every value-type case, the module-aux skipper and the string/length/float primitives equals the reference grammar written from rdb.c (tokens are resolved reader primitives; loops are tied to the count they iterate over); " +
 		"R3 capture completeness: in readObjectValue every primitive read goes through the tee reader that records the payload and the function returns the recorded bytes; " +
 		"R4 metadata binding: expiry (ms, and s*1000), database, idle, freq, key, type and value are bound to the entry fields; the entry is allocated once before the opcode loop; EOF returns (nil,nil); the lua aux record is delivered; " +
-		"R5 hash chunk protocol (16 MiB break with remainMember = n-i-1, reset when complete, continuation takes type/key from the previous entry, RealMemberCount/NeedReadLen as restoreBigRdbEntry expects); " +
+		"R5 hash chunk protocol (16 MiB break with remainMember = n-i-1, reset when complete, lastReadCount restarted on every path into the pair loop, totMemberCount written only from the length read from the header, continuation takes type/key from the previous entry, RealMemberCount/NeedReadLen as restoreBigRdbEntry expects); " +
 		"R6 checksum plumbing (all reads go through TeeReader into the digest; Footer sums before reading the trailer and fails on inequality; NewRDBLoader runs Header, NextBinEntry until nil, Footer, and closes the channel by defer); " +
 		"R7 DUMP wrapping order type, payload, version LE16, CRC64 LE64 of the preceding bytes; " +
 		"R8 width agreement of every fixed-width integer read (buffer bytes * 8 = decoder width); " +
-		"R9 the length decoder takes the tag from the top two bits and the value from the low six bits (mask/shift constants, both copies).",
+		"R9 the length decoder takes the tag from the top two bits and the value from the low six bits (mask/shift constants, both copies); " +
+		"R10 the reader primitive (*rdbReader).Read returns the byte count of the underlying read on every return (also next to an error) and counts it into nread.",
 	NotDecided: "bit arithmetic inside the length decoding, LZF decompression, integer-string rendering, correctness of the reference grammar itself (trusted, written from rdb.c), keys with more than 2^32 elements.",
 	Trusted:    []string{"go/parser, go/types, go/cfg (x/tools v0.29.0)", "reference RDB v9 grammar and opcode table in rules/c01", "io.TeeReader, io.MultiWriter, encoding/binary semantics"},
 	Run:        Run,
@@ -415,6 +416,7 @@ func Run(c *core.Ctx) {
 	r6(c)
 	r7(c)
 	r8(c)
+	r10(c)
 	// R9: mask/shift constants of the length decoder, and agreement with the second copy
 	arith.LengthFingerprint(c, "R9.length", c.Func(pkg, "rdbReader", "readEncodedLength"))
 	arith.LengthFingerprint(c, "R9.length", c.Func("pkg/libs/cupcake/rdb", "decode", "readLength"))
